@@ -213,7 +213,7 @@ func c10R101(e *c10Env, T func(string) *ssa.Function, TO, PP func(string) *types
 		}
 		// the queued reservation reports to that channel
 		m := 0
-		kit.Instrs(T("startPieceDownloaderFor"), func(ins ssa.Instruction) {
+		c.InstrsDeep(T("startPieceDownloaderFor"), 2, false, func(ins ssa.Instruction) {
 			cc := kit.CallOf(ins)
 			if cc == nil || cc.StaticCallee() == nil || cc.StaticCallee().Name() != "Request" || !strings.HasSuffix(fnPkgPath(cc.StaticCallee()), "internal/resourcemanager") {
 				return
@@ -230,7 +230,7 @@ func c10R101(e *c10Env, T func(string) *ssa.Function, TO, PP func(string) *types
 				"a queued piece-buffer reservation is not announced on t.ramNotifyC: the peer is never started when memory becomes free")
 		})
 		c.Floor(R, "ramNotifyC arm of the event loop", n, 1)
-		c.Floor(R, "ram.Request sites in startPieceDownloaderFor", m, 1)
+		c.Floor(R, "ram.Request sites in startPieceDownloaderFor (and its helpers)", m, 1)
 		if n > 0 {
 			kinds++
 		}
@@ -257,18 +257,19 @@ func c10R101(e *c10Env, T func(string) *ssa.Function, TO, PP func(string) *types
 		// premises of the metadata-only exemption
 		fInfo, fInfoDL := e.fInfo, e.fInfoDL
 		m := 0
+		var infoNilSpec *kit.Spec
 		for _, fn := range c.ModuleFunctions() {
 			if !inPkg(fn, c, "torrent") {
 				continue
 			}
-			var infoNil *kit.Flow
 			kit.Instrs(fn, func(ins ssa.Instruction) {
 				if isMapUpdateOf(ins, fInfoDL) {
 					m++
-					if infoNil == nil {
-						infoNil = c.FieldNil(fn, fInfo, true)
+					if infoNilSpec == nil {
+						infoNilSpec = c.FieldNilSpec(fInfo, true, kit.DefaultDeep)
 					}
-					c.Check(infoNil.Before(ins), R, k.key(fn, "premise: infoDownloaders insert under info==nil"), posOf(ins),
+					// in the function itself, or at every static caller of a helper
+					c.Check(infoNilSpec.Holds(ins, 2), R, k.key(fn, "premise: infoDownloaders insert under info==nil"), posOf(ins),
 						"a peer gets an info downloader only while t.info == nil (so a peer with an info downloader cannot hold a piece download)",
 						"a peer can get an info downloader while t.info is set: the metadata-only exemption of the closePeer rule is unsound")
 				}
@@ -276,6 +277,10 @@ func c10R101(e *c10Env, T func(string) *ssa.Function, TO, PP func(string) *types
 		}
 		c.Floor(R, "inserts into infoDownloaders", m, 1)
 		stopInfo := TO("stopInfoDownloaders")
+		// the store may sit in a helper (parse + set info) that the handler
+		// calls after stopInfoDownloaders(): the fact is evaluated at the store
+		// including the context of every static caller (two levels).
+		stopped := c.CalledSpec(kit.DefaultDeep, stopInfo)
 		for _, st := range fieldStores(c, fInfo) {
 			if kit.Canon(st.Val).IsNil() || !inPkg(st.Fn, c, "torrent") {
 				continue
@@ -285,8 +290,7 @@ func c10R101(e *c10Env, T func(string) *ssa.Function, TO, PP func(string) *types
 					continue // composite literal of a new torrent: its maps are empty
 				}
 			}
-			done := c.Called(st.Fn, stopInfo)
-			c.Check(done.Before(st.Store), R, k.key(st.Fn, "premise: info set after stopInfoDownloaders"), posOf(st.Store),
+			c.Check(stopped.Holds(st.Store, 2), R, k.key(st.Fn, "premise: info set after stopInfoDownloaders"), posOf(st.Store),
 				"t.info is set only after every info downloader was closed",
 				"t.info can be set while info downloaders exist: the metadata-only exemption of the closePeer rule is unsound")
 		}
@@ -297,7 +301,7 @@ func c10R101(e *c10Env, T func(string) *ssa.Function, TO, PP func(string) *types
 		fPeers := c.Field("torrent", "torrent", "peers")
 		all := T("startPieceDownloaders")
 		ranges, calls := false, false
-		kit.Instrs(all, func(ins ssa.Instruction) {
+		c.InstrsDeep(all, 2, false, func(ins ssa.Instruction) {
 			if r, ok := ins.(*ssa.Range); ok && kit.Canon(r.X).IsField(fPeers) {
 				ranges = true
 			}
@@ -319,8 +323,27 @@ func c10R101(e *c10Env, T func(string) *ssa.Function, TO, PP func(string) *types
 				if a.Op == token.NEQ && a.L.IsCallTo(status) && a.R.Kind == "const" {
 					return true // not downloading: nothing to ask for
 				}
-				// reservation queued: the event loop's ramNotifyC arm starts the peer (6)
-				return a.IsFalse(func(x *kit.Expr) bool { return x.V != nil && isReq(x.V) })
+				// reservation queued: the event loop's ramNotifyC arm starts the peer (6);
+				// the reservation may be wrapped in a helper that returns true or
+				// the result of ram.Request
+				return a.IsFalse(func(x *kit.Expr) bool {
+					if x.V == nil {
+						return false
+					}
+					if isReq(x.V) {
+						return true
+					}
+					if x.Kind != "call" || x.Fn == nil || x.Fn.Blocks == nil || !inPkg(x.Fn, c, "torrent") {
+						return false
+					}
+					rets := returnsOf(x.Fn)
+					for _, r := range rets {
+						if len(r.Results) != 1 || !(kit.Canon(r.Results[0]).IsConstBool(true) || isReq(r.Results[0])) {
+							return false
+						}
+					}
+					return len(rets) > 0
+				})
 			},
 			Instr: func(ins ssa.Instruction, in bool) bool {
 				if kit.CallsAny(ins, e.oStartSingle) {
@@ -400,7 +423,7 @@ func c10R102(e *c10Env) {
 	// FastUnchoke can unchoke
 	fu := c.Func("internal/unchoker", "(*Unchoker).FastUnchoke")
 	un := false
-	kit.Instrs(fu, func(ins ssa.Instruction) {
+	c.InstrsDeep(fu, 2, false, func(ins ssa.Instruction) {
 		if cc := kit.CallOf(ins); cc != nil && cc.StaticCallee() != nil && (cc.StaticCallee().Name() == "unchokePeer" || cc.StaticCallee().Name() == "optimisticUnchokePeer") {
 			un = true
 		}
@@ -482,7 +505,7 @@ func c10R103(e *c10Env, T func(string) *ssa.Function, TO func(string) *types.Fun
 	// notifyWebseedRetry sends on webseedRetryC
 	notify := T("notifyWebseedRetry")
 	sends := false
-	kit.Instrs(notify, func(ins ssa.Instruction) {
+	c.InstrsDeep(notify, 2, false, func(ins ssa.Instruction) {
 		switch x := ins.(type) {
 		case *ssa.Send:
 			if kit.Canon(x.Chan).IsField(fRetryC) {
@@ -519,25 +542,78 @@ func c10R104(e *c10Env, T func(string) *ssa.Function, TO func(string) *types.Fun
 	c, k := e.c, e.k
 	const R = "R10.4"
 	pq := TO("processQueuedMessages")
+	// The start sequence may live in the completion handlers themselves or in
+	// helpers extracted from them. "Owned" functions are the two handlers and
+	// every function of package torrent all of whose uses are plain calls from
+	// owned functions: they run only as part of a completion handler. Every
+	// call chain from a handler through owned functions to a
+	// startPieceDownloaders call is one instance; the fact "processQueuedMessages
+	// was called" is carried along the chain (caller's value at the call = entry
+	// value of the callee; callee summaries inside each function).
+	handlers := []*ssa.Function{T("handleAllocationDone"), T("handleVerificationDone")}
+	owned := map[*ssa.Function]bool{}
+	for _, h := range handlers {
+		owned[h] = true
+	}
+	for changed := true; changed; {
+		changed = false
+		for _, fn := range c.ModuleFunctions() {
+			if owned[fn] || fn.Parent() != nil || fn.Blocks == nil || !inPkg(fn, c, "torrent") {
+				continue
+			}
+			if o, _ := fn.Object().(*types.Func); o == nil || o == e.oStartAll || o == pq {
+				continue
+			}
+			sites := c.StaticCallSites(fn)
+			all := len(sites) > 0
+			for _, s := range sites {
+				if s == nil || !owned[s.Parent()] {
+					all = false
+					break
+				}
+			}
+			if all {
+				owned[fn] = true
+				changed = true
+			}
+		}
+	}
+	replayed := c.CalledSpec(kit.DefaultDeep, pq)
 	n := 0
-	for _, name := range []string{"handleAllocationDone", "handleVerificationDone"} {
-		h := T(name)
-		done := c.Called(h, pq)
-		kit.Instrs(h, func(ins ssa.Instruction) {
-			if !kit.CallsAny(ins, e.oStartAll) {
+	var walk func(h, fn *ssa.Function, entry bool, depth int, busy map[*ssa.Function]bool)
+	walk = func(h, fn *ssa.Function, entry bool, depth int, busy map[*ssa.Function]bool) {
+		if busy[fn] {
+			return
+		}
+		busy[fn] = true
+		defer delete(busy, fn)
+		fl := replayed.On(fn, entry)
+		kit.Instrs(fn, func(ins ssa.Instruction) {
+			if kit.CallsAny(ins, e.oStartAll) {
+				n++
+				c.Check(fl.Before(ins), R, k.key(h, "processQueuedMessages before startPieceDownloaders"), posOf(ins),
+					"the have/bitfield/allowed-fast messages queued while there was no info are replayed before the picker first runs",
+					"the picker runs before the queued have/bitfield/allowed-fast messages are replayed (or they are not replayed at all): a choked peer's queued allowed-fast pieces are never requested, peers that announced early are not asked")
 				return
 			}
-			n++
-			c.Check(done.Before(ins), R, k.key(h, "processQueuedMessages before startPieceDownloaders"), posOf(ins),
-				"the have/bitfield/allowed-fast messages queued while there was no info are replayed before the picker first runs",
-				"the picker runs before the queued have/bitfield/allowed-fast messages are replayed (or they are not replayed at all): a choked peer's queued allowed-fast pieces are never requested, peers that announced early are not asked")
+			call, ok := ins.(*ssa.Call)
+			if !ok || depth <= 0 {
+				return
+			}
+			if g := call.Call.StaticCallee(); g != nil && owned[g] && g != fn {
+				walk(h, g, fl.Before(ins), depth-1, busy)
+			}
 		})
 	}
-	c.Floor(R, "startPieceDownloaders sites in the completion handlers", n, 3)
+	for _, h := range handlers {
+		walk(h, h, false, 4, map[*ssa.Function]bool{})
+	}
+	c.Floor(R, "call chains from the completion handlers to startPieceDownloaders", n, 3)
 	p := T("processQueuedMessages")
+	hpm := TO("handlePeerMessage")
 	replays := false
-	kit.Instrs(p, func(ins ssa.Instruction) {
-		if kit.CallsAny(ins, TO("handlePeerMessage")) {
+	c.InstrsDeep(p, 2, false, func(ins ssa.Instruction) {
+		if kit.CallsAny(ins, hpm) {
 			replays = true
 		}
 	})
